@@ -1,17 +1,14 @@
-/- GENERATED by harness/extract_c09 (./check C09) from the linked package monitor/metrics and
-   monitor/metrics/{checker,store}.go. Do not edit. -/
-namespace CV.C09.Gen
+/-!
+# C09 — the source text the hand-written model transcribes (snapshot, round 7)
 
-/-- `metrics.DefaultWindowCap` -/
-def defaultWindowCap : Nat := 25
-/-- `metrics.MaxAlertThreshold` -/
-def maxAlertThreshold : Nat := 1
-/-- `metrics.AlertChannelCap` -/
-def alertChannelCap : Nat := 256
-/-- `accrualMetricsNum` (monitor/metrics/checker.go) -/
-def accrualMetricsNum : Nat := 6
-/-- `Store.AllMetrics` mentions `Valid` / `Discard` (it filters the snapshot `CheckAll` walks) -/
-def allMetricsFiltersValidity : Bool := false
+`Gen/C09.lean` is regenerated from /repo on every run; `Props/C09.lean` proves `Gen.f = Expected.f` (`rfl`) for
+the functions below. They are the ones whose exact shape the timed correspondence run cannot observe
+(`Metric.Expired`: strictly after, i.e. a metric whose expiry instant equals the clock is still fresh — modelled by
+`Metric.expiredAt`), or that the model transcribes line by line (`Checker.Watch` = `Op.tick` every interval /
+`watchOps`; `logFromPubsub` + `LogMetric` = `lowerOne`). An edit to one of them breaks that obligation, and the check
+then searches for a failing input with the correspondence run.
+-/
+namespace CV.C09.Expected
 
 /-- Metric.Expired (api/types.go) -/
 def srcExpired : List String := [
@@ -79,4 +76,4 @@ def srcLogMetric : List String := [
   "return nil"
 ]
 
-end CV.C09.Gen
+end CV.C09.Expected
